@@ -27,7 +27,7 @@ def run(ctx, sess):
     ctx.rule('C18.1', 'tables: slice k of the table-driven implementation equals the k-th slicing table of polynomial 0x82F63B78 and is GF(2)-linear')
     ctx.rule('C18.2', 'kernels: the slicing-by-8 loop body equals the exact 8-byte CRC register update and the bytewise statements equal the 1-byte update (GF(2) abstract interpretation)')
     ctx.rule('C18.3', 'framing: initial value and final XOR are 0xFFFFFFFF in jls_crc32c and jls_crc32c_hdr of every implementation')
-    ctx.rule('C18.4', 'stride agreement in the intrinsic implementations: pointer step, length step and intrinsic operand width agree and the loop guard is length >= width; the header variant covers 28 bytes')
+    ctx.rule('C18.4', 'coverage of the intrinsic implementations: for every (alignment, length) of a finite grid the CRC steps, each consuming its operand width, tile the input exactly and in order; the header variant covers 28 bytes')
     ctx.rule('C18.5', 'length partition of the table implementation: head + 8 * iterations + tail == length, head aligns the pointer, for every alignment and length')
     ctx.rule('C18.6', 'dispatch: for every platform macro set exactly one implementation is included')
     # ---- C18.1
@@ -106,6 +106,7 @@ def run(ctx, sess):
             ctx.ob('C18.3', ok_fin, '%s[%s]' % (fname, f.file), 'final XOR 0xFFFFFFFF', f.where(), '')
     # ---- C18.4 strides
     f = P.fn('jls_crc32c')
+    _PROG[0] = P
     _strides(ctx, f)
     h = P.fn('jls_crc32c_hdr')
     n, how = hdr_extent(h)
@@ -201,64 +202,60 @@ def _framing(f):
 
 
 def _strides(ctx, f):
-    lp = loops(f)
-    n = 0
-    for hdr, body in sorted(lp.items()):
-        calls = [ev for b in body for ev in f.blocks[b].events if ev.k == 'call' and ev.callee in INTRINSIC_WIDTH]
-        if not calls:
-            continue
-        n += 1
-        w = INTRINSIC_WIDTH[calls[0].callee]
-        # pointer and length steps in the loop
-        pstep = lstep = None
-        for b in body:
-            for ev in f.blocks[b].events:
-                if ev.k != 'store':
-                    continue
-                lhs, rhs, o = ev.store_parts()
-                l0 = strip_casts(lhs)
-                if l0.get('op') != 'ref':
-                    continue
-                step = 1 if rhs is None else const_of(rhs)
-                if l0.get('t', '').startswith('p') or l0['name'] == f.params[0]['name']:
-                    pstep = step if (rhs is None and '++' in o) or o == '+=' else None
-                elif l0['name'] == f.params[1]['name']:
-                    lstep = step if (rhs is None and '--' in o) or o == '-=' else None
-        # guard
-        guard_ok = False
-        for b in body:
-            c = f.blocks[b].cond
-            if c is None:
+    """Coverage of the intrinsic implementation of jls_crc32c: for every (alignment, length) of a finite grid the
+    control skeleton is evaluated (set-of-constants), the CRC steps are collected in order with the bytes each one
+    consumes (operand width; address from the dereferenced operand or from the memcpy that filled the operand),
+    and they must tile [data, data + length) exactly, in order."""
+    from ..fd import trace_calls
+    P = f._prog if hasattr(f, '_prog') else None
+    BASE = 0x10000
+    data_p, len_p = f.params[0]['name'], f.params[1]['name']
+    bad = []
+    cases = 0
+    kinds = set()
+    for align in range(8):
+        for L in list(range(0, 41)) + [63, 64, 65, 100, 255, 256, 257]:
+            cases += 1
+            try:
+                calls = trace_calls(_PROG[0], f, {data_p: BASE + align, len_p: L})
+            except Top:
+                bad.append('align %d len %d: control flow not decidable from (address, length)' % (align, L))
                 continue
-            for nd in walk(c):
-                if nd.get('op') == 'bin' and nd['o'] in ('>=', '>') and strip_casts(nd['k'][0]).get('name') == f.params[1]['name'] and const_of(nd['k'][1]) is not None:
-                    cv = const_of(nd['k'][1])
-                    if (nd['o'] == '>=' and cv >= w) or (nd['o'] == '>' and cv >= w - 1):
-                        guard_ok = True
-        # operand width: loaded element type
-        a = strip_casts(calls[0].args[1])
-        et = a.get('t', '')
-        ew = {'u64': 8, 'u32': 4, 'u16': 2, 'u8': 1, 'i8': 1}.get(et)
-        ok = pstep == w and lstep == w and guard_ok and ew == w
-        ctx.ob('C18.4', ok, '%s[%s]' % (f.name, f.file), 'loop with %s' % calls[0].callee, calls[0].where(),
-               'operand %s bytes, pointer += %s, length -= %s, guard covers the operand: %s, loaded element %s' % (w, pstep, lstep, guard_ok, et))
-    ctx.floor('intrinsic loops', n, 3)
+            pos = BASE + align
+            filled = {}
+            err = None
+            for callee, args, ev in calls:
+                if callee in ('memcpy', '__builtin_memcpy', '__builtin___memcpy_chk'):
+                    dst, src, n = args[0], args[1], args[2]
+                    if isinstance(dst, tuple) and dst[0] == 'addr' and isinstance(src, int) and isinstance(n, int):
+                        filled[dst[1]] = (src, n)
+                    continue
+                w = INTRINSIC_WIDTH.get(callee)
+                if w is None:
+                    continue
+                kinds.add(callee)
+                op = args[1] if len(args) > 1 else None
+                if isinstance(op, tuple) and op[0] == 'deref':
+                    addr, n = op[1], w
+                elif isinstance(op, tuple) and op[0] == 'var' and op[1] in filled:
+                    addr, n = filled[op[1]]
+                else:
+                    err = '%s operand does not come from the input (line %d)' % (callee, ev.ln)
+                    break
+                if n != w:
+                    err = '%s consumes %d bytes but its operand was filled with %d (line %d)' % (callee, w, n, ev.ln)
+                    break
+                if addr != pos:
+                    err = '%s at line %d reads offset %d, expected offset %d (bytes skipped or read twice)' % (callee, ev.ln, addr - BASE - align, pos - BASE - align)
+                    break
+                pos += w
+            if err is None and pos != BASE + align + L:
+                err = 'steps cover %d of %d bytes' % (pos - BASE - align, L)
+            if err:
+                bad.append('align %d len %d: %s' % (align, L, err))
+    ctx.ob('C18.4', not bad, '%s[%s]' % (f.name, f.file), 'CRC steps tile the input exactly for every (alignment, length)', f.where(),
+           '%d (alignment, length) cases, steps %s' % (cases, sorted(kinds)) if not bad else '%d of %d cases fail; first: %s' % (len(bad), cases, bad[0]))
+    ctx.floor('intrinsic kinds used by %s' % f.file, len(kinds), 2)
 
 
-def run_thorough(ctx, sess):
-    """NEON implementation (never built or tested on this platform), parsed for aarch64."""
-    try:
-        N = sess.prog('neon')
-    except AnalysisBroken as ex:
-        ctx.note('NEON unit not covered: %s' % str(ex)[:200])
-        return
-    for fname in ('jls_crc32c', 'jls_crc32c_hdr'):
-        f = N.fn(fname)
-        ctx.saw(f)
-        ok_init, ok_fin = _framing(f)
-        ctx.ob('C18.3', ok_init, '%s[%s]' % (fname, f.file), 'initial value 0xFFFFFFFF', f.where(), '')
-        ctx.ob('C18.3', ok_fin, '%s[%s]' % (fname, f.file), 'final XOR 0xFFFFFFFF', f.where(), '')
-    _strides(ctx, N.fn('jls_crc32c'))
-    h = N.fn('jls_crc32c_hdr')
-    n, how = hdr_extent(h)
-    ctx.ob('C18.4', n == 28, 'jls_crc32c_hdr[%s]' % h.file, 'header variant covers 28 bytes', h.where(), '%s bytes (%s)' % (n, how))
+_PROG = [None]
